@@ -1237,7 +1237,7 @@ package stackage
 //@ tags C16
 //@ safety C16
 //@ requires okslice(in, alloc)
-//@ ensures[C16:deenvelope] okslice(result, alloc) && (len(in) >= 1 ==> len(result) >= 0)
+//@ ensures[C16:deenvelope] okslice(result, alloc) && (len(in) != 1 ==> result == in)
 //@ modifies nothing
 //@ loop 1 invariant okslice(in, alloc)
 
@@ -1247,8 +1247,14 @@ package stackage
 //@ requires okslice(in, alloc)
 //@ ensures[C16:md.result] (x == nil || (wf(x) && fresh(x))) && (c == nil || (cwf(c) && fresh(c)))
 //@ ensures[C16:md.empty] len(in) == 0 ==> err != nil && x == nil && c == nil
+//@ let lab := toUpper(str_of(in[0]))
+//@ let known := lab == "LIST" || lab == "AND" || lab == "OR" || lab == "NOT" || lab == "BASIC"
+//@ ensures[C16:md.nolabel] len(in) >= 2 && !is_v_str(in[0]) ==> err != nil && x == nil && c == nil
+//@ ensures[C16:md.known] len(in) >= 2 && is_v_str(in[0]) && known ==> x != nil && ulen(x) == len(in) - 1 && F_nodeConfig_typ[cfgOf(x)] == ite(lab == "LIST", 0x04, ite(lab == "AND", 0x01, ite(lab == "NOT", 0x03, ite(lab == "OR", 0x02, 0x06))))
+//@ ensures[C16:md.unknown] len(in) >= 2 && is_v_str(in[0]) && !known && lab != "CONDITION" ==> x != nil && ulen(x) == len(in) && F_nodeConfig_typ[cfgOf(x)] == 0x06
 //@ modifies fresh, G_calls_len, G_calls_fn, G_calls_arg
 //@ loop 1 invariant x != nil && wf(x) && fresh(x) && fresh(arr(hdr(x))) && 0 <= i
+//@ loop 1 invariant len(hdr(x)) == pre(len(hdr(x))) && cfgOf(x) == pre(cfgOf(x))
 //@ loop 1 invariant forall a :: 0 <= a && a < old(alloc) ==> Mem_Val[a] == old(Mem_Val[a])
 //@ loop 1 invariant forall a :: 0 <= a && a < old(alloc) ==> Cell_stack[a] == old(Cell_stack[a])
 
@@ -1354,3 +1360,39 @@ package stackage
 //@ modifies fresh
 //@ loop 1 invariant arr(levels) == 0 || fresh(arr(levels))
 //@ loop 1 invariant forall a :: 0 <= a && a < old(alloc) ==> Mem_Str[a] == old(Mem_Str[a])
+
+// ---------------------------------------------------------------------
+// C16: Marshal accepts or rejects any input without panicking
+
+//@ func stackByWord
+//@ tags C16
+//@ safety C16
+//@ let u := toUpper(label)
+//@ ensures[C16:stackByWord] result != nil && wf(result) && fresh(result) && fresh(arr(hdr(result))) && fresh(cfgOf(result)) && ulen(result) == 0 && F_nodeConfig_cap[cfgOf(result)] == 0 && F_nodeConfig_ppf[cfgOf(result)] == nil && F_nodeConfig_opt[cfgOf(result)] == 0x0000
+//@ ensures[C16:stackByWord.kind] F_nodeConfig_typ[cfgOf(result)] == ite(u == "LIST", 0x04, ite(u == "AND", 0x01, ite(u == "NOT", 0x03, ite(u == "OR", 0x02, 0x06))))
+//@ modifies fresh
+
+//@ func extractConditionValues
+//@ tags C16
+//@ safety C16
+//@ requires okslice(in, alloc)
+//@ ensures[C16:ecv] c == nil || (cwf(c) && fresh(c))
+//@ ensures[C16:ecv.fields] len(in) == 4 && is_v_str(in[1]) && !is_v_anys(in[3]) ==> c != nil && F_condition_kw[c] == str_of(in[1]) && F_condition_op[c] == ite(isOperator(in[2]) && acceptOp(in[2]), in[2], nil) && F_condition_ex[c] == ite(acceptEx(false, nil, in[3]), in[3], nil)
+//@ modifies fresh, G_calls_len, G_calls_fn, G_calls_arg
+
+//@ func (*Stack).Marshal
+//@ tags C16,C14
+//@ safety C16
+//@ requires r != nil && (F_Stack_stack[r] == nil || wf(F_Stack_stack[r])) && okslice(in, alloc)
+//@ requires F_Stack_stack[r] != nil ==> F_nodeConfig_ppf[cfgOf(F_Stack_stack[r])] == nil && arr(in) != arr(hdr(F_Stack_stack[r]))
+//@ let s0 := F_Stack_stack[r]
+//@ let ma := F_nodeConfig_maf[cfgOf(s0)]
+//@ let c0 := G_calls_len
+//@ let L := ulen(s0)
+//@ ensures[C16:Marshal.empty] len(in) == 0 ==> err != nil && F_Stack_stack[r] == s0
+//@ ensures[C16:Marshal.init] s0 == nil ==> (F_Stack_stack[r] == nil || (wf(F_Stack_stack[r]) && fresh(F_Stack_stack[r])))
+//@ ensures[C16:Marshal.outcome] s0 == nil ==> err != nil || F_Stack_stack[r] != nil
+//@ ensures[C16:Marshal.append] s0 != nil && ma == nil ==> F_Stack_stack[r] == s0 && wf(s0) && (ulen(s0) == L || ulen(s0) == L + 1) && (forall k :: 0 <= k && k <= L ==> slot(s0, k) == old(slot(s0, k)))
+//@ ensures[C16:Marshal.appended] s0 != nil && ma == nil && ulen(s0) == L + 1 ==> isStackLike(slot(s0, L + 1)) || isCondLike(slot(s0, L + 1))
+//@ ensures[C14:Marshal.policy] s0 != nil && len(in) > 0 && ma != nil ==> err == dyn_Val_0(ma, in[0], c0) && F_Stack_stack[r] == s0 && hdr(s0) == old(hdr(s0))
+//@ modifies F_Stack_stack[r], Cell_stack[F_Stack_stack[r]], Mem_Val[arr(hdr(F_Stack_stack[r]))], F_nodeConfig_ldr[cfgOf(F_Stack_stack[r])], F_nodeConfig_err[cfgOf(F_Stack_stack[r])], fresh, G_calls_len, G_calls_fn, G_calls_arg
